@@ -18,6 +18,7 @@ type regexTemplate struct {
 	kind    string // "option" or "split"
 	// option template: ^(p1|p2..)([^C2]+)(.*?)$
 	prefixes []string // priority order
+	min2     int      // minimal length of group 2 (1 for '+', 0 for '*')
 	excl2    []byte   // characters excluded from group 2
 	excl3    []byte   // characters excluded from group 3 ("\n" unless (?s))
 	// split template: C+ ; set of separator bytes
@@ -162,7 +163,7 @@ func buildTemplate(pattern string) *regexTemplate {
 		pre, ok1 := literalAlternatives(re.Sub[1])
 		g2 := re.Sub[2].Sub[0]
 		g3 := re.Sub[3].Sub[0]
-		if ok1 && g2.Op == syntax.OpPlus && g2.Flags&syntax.NonGreedy == 0 && g3.Op == syntax.OpStar {
+		if ok1 && (g2.Op == syntax.OpPlus || g2.Op == syntax.OpStar) && g2.Flags&syntax.NonGreedy == 0 && g3.Op == syntax.OpStar {
 			ex2, ok2 := classExcluded(g2.Sub[0])
 			ex3, ok3 := classExcluded(g3.Sub[0])
 			nonEmpty := true
@@ -184,6 +185,9 @@ func buildTemplate(pattern string) *regexTemplate {
 				if okStop {
 					t.kind = "option"
 					t.prefixes, t.excl2, t.excl3 = pre, ex2, ex3
+					if g2.Op == syntax.OpPlus {
+						t.min2 = 1
+					}
 					return t
 				}
 			}
@@ -205,7 +209,7 @@ func (t *regexTemplate) matchConcrete(s string) []string {
 			j++
 		}
 		g2, g3 := r[:j], r[j:]
-		if len(g2) < 1 {
+		if len(g2) < t.min2 {
 			continue
 		}
 		bad := false
@@ -327,7 +331,7 @@ func iFindStringSubmatch(m *machine, fr *frame, args []value) value {
 			continue
 		}
 		d := decompose(r)
-		cond := mkAnd(mkCmp(">=", mkLen(d.g2), mkInt(1)), noneOf(d.g3, t.excl3))
+		cond := mkAnd(mkCmp(">=", mkLen(d.g2), mkInt(int64(t.min2))), noneOf(d.g3, t.excl3))
 		if m.branch(cond) {
 			return []value{fromTerm(s), p, fromTerm(d.g2), fromTerm(d.g3)}
 		}
